@@ -1,5 +1,6 @@
 import Ruint.Lemmas.FacadeC
 import Ruint.Lemmas.GenBinOps
+import Ruint.Gen.WordsFacade
 
 /-!
 # C20 — operator, wrapper and trait facades agree with the inherent methods
@@ -176,5 +177,85 @@ theorem gen_bin_op_shapes (f bits L : Nat) (a b : List Nat) :
       ∧ Ruint.Gen.op_rem_ref_ref f bits L a b = Ruint.Gen.uint_wrapping_rem f bits L a b) :=
   ⟨Ruint.GenBinOps.add_shapes f bits L a b, Ruint.GenBinOps.sub_shapes f bits L a b, Ruint.GenBinOps.mul_shapes bits L a b,
    Ruint.GenBinOps.div_shapes f bits L a b, Ruint.GenBinOps.rem_shapes f bits L a b⟩
+
+/-! ## The num-traits / num-integer impls as regenerated from the source (G)
+
+`Gen/WordsFacade.lean` holds one definition per method of every `impl … Trait for Uint<BITS, LIMBS>` block of
+`src/support/num_traits.rs` and `src/support/num_integer.rs` that lies in the translated subset (51 methods; the file lists the
+others). The theorems below state what each body is: the inherent method of the same meaning, applied to the same arguments in
+the same order (`*_forwarders`), the same with the panic of the inherent method passed on (`*_panicking_forwarders`: `none` =
+panic), with the `usize → u32` cast of the counting methods (`*_counts`), or a fixed small expression (`*_constants_and_steps`).
+They are `rfl`-style facts about the regenerated text: an edit that redirects a facade to another method, swaps its arguments or
+drops a cast changes the regenerated definition and breaks the proof. The inherent methods on the right are themselves
+regenerated and tied to the models by C01–C06 / C03. -/
+
+/-- each of these facade methods *is* the inherent method on the same arguments -/
+theorem gen_facade_forwarders :
+    (∀ (fuel : Nat) (BITS LIMBS : Nat) (self : List Nat) (other : List Nat), Ruint.Gen.nt_CheckedAdd_checked_add fuel BITS LIMBS self other = Ruint.Gen.uint_checked_add fuel BITS LIMBS self other)
+    ∧ (∀ (fuel : Nat) (BITS LIMBS : Nat) (self : List Nat) (other : List Nat), Ruint.Gen.nt_CheckedMul_checked_mul fuel BITS LIMBS self other = Ruint.Gen.uint_checked_mul fuel BITS LIMBS self other)
+    ∧ (∀ (fuel : Nat) (BITS LIMBS : Nat) (self : List Nat), Ruint.Gen.nt_CheckedNeg_checked_neg fuel BITS LIMBS self = Ruint.Gen.uint_checked_neg fuel BITS LIMBS self)
+    ∧ (∀ (fuel : Nat) (BITS LIMBS : Nat) (self : List Nat) (other : Nat), Ruint.Gen.nt_CheckedShl_checked_shl fuel BITS LIMBS self other = Ruint.Gen.uint_checked_shl fuel BITS LIMBS self other)
+    ∧ (∀ (fuel : Nat) (BITS LIMBS : Nat) (self : List Nat) (other : Nat), Ruint.Gen.nt_CheckedShr_checked_shr fuel BITS LIMBS self other = Ruint.Gen.uint_checked_shr fuel BITS LIMBS self other)
+    ∧ (∀ (fuel : Nat) (BITS LIMBS : Nat) (self : List Nat) (other : List Nat), Ruint.Gen.nt_CheckedSub_checked_sub fuel BITS LIMBS self other = Ruint.Gen.uint_checked_sub fuel BITS LIMBS self other)
+    ∧ (∀ (fuel : Nat) (BITS LIMBS : Nat) (self : List Nat), Ruint.Gen.nt_Inv_inv fuel BITS LIMBS self = Ruint.Gen.uint_inv_ring fuel BITS LIMBS self)
+    ∧ (∀ (fuel : Nat) (BITS LIMBS : Nat) (self : List Nat) (v : List Nat), Ruint.Gen.nt_Saturating_saturating_add fuel BITS LIMBS self v = Ruint.Gen.uint_saturating_add fuel BITS LIMBS self v)
+    ∧ (∀ (fuel : Nat) (BITS LIMBS : Nat) (self : List Nat) (v : List Nat), Ruint.Gen.nt_Saturating_saturating_sub fuel BITS LIMBS self v = Ruint.Gen.uint_saturating_sub fuel BITS LIMBS self v)
+    ∧ (∀ (fuel : Nat) (BITS LIMBS : Nat) (self : List Nat), Ruint.Gen.nt_WrappingNeg_wrapping_neg fuel BITS LIMBS self = Ruint.Gen.uint_wrapping_neg fuel BITS LIMBS self)
+    ∧ (∀ (fuel : Nat) (BITS LIMBS : Nat) (self : List Nat) (rhs : Nat), Ruint.Gen.nt_WrappingShl_wrapping_shl fuel BITS LIMBS self rhs = Ruint.Gen.uint_wrapping_shl fuel BITS LIMBS self rhs)
+    ∧ (∀ (fuel : Nat) (BITS LIMBS : Nat) (self : List Nat) (rhs : Nat), Ruint.Gen.nt_WrappingShr_wrapping_shr fuel BITS LIMBS self rhs = Ruint.Gen.uint_wrapping_shr fuel BITS LIMBS self rhs)
+    ∧ (∀ (fuel : Nat) (BITS LIMBS : Nat) (self : List Nat) (v : List Nat), Ruint.Gen.nt_OverflowingAdd_overflowing_add fuel BITS LIMBS self v = Ruint.Gen.uint_overflowing_add fuel BITS LIMBS self v)
+    ∧ (∀ (fuel : Nat) (BITS LIMBS : Nat) (self : List Nat) (v : List Nat), Ruint.Gen.nt_OverflowingSub_overflowing_sub fuel BITS LIMBS self v = Ruint.Gen.uint_overflowing_sub fuel BITS LIMBS self v)
+    ∧ (∀ (fuel : Nat) (BITS LIMBS : Nat) (self : List Nat) (v : List Nat), Ruint.Gen.nt_OverflowingMul_overflowing_mul fuel BITS LIMBS self v = Ruint.Gen.uint_overflowing_mul fuel BITS LIMBS self v)
+    ∧ (∀ (fuel : Nat) (BITS LIMBS : Nat) (self : List Nat) (n : Nat), Ruint.Gen.nt_PrimInt_rotate_left fuel BITS LIMBS self n = Ruint.Gen.uint_rotate_left fuel BITS LIMBS self n)
+    ∧ (∀ (fuel : Nat) (BITS LIMBS : Nat) (self : List Nat) (n : Nat), Ruint.Gen.nt_PrimInt_rotate_right fuel BITS LIMBS self n = Ruint.Gen.uint_rotate_right fuel BITS LIMBS self n)
+    ∧ (∀ (fuel : Nat) (BITS LIMBS : Nat) (self : List Nat) (n : Nat), Ruint.Gen.nt_PrimInt_signed_shr fuel BITS LIMBS self n = Ruint.Gen.uint_arithmetic_shr fuel BITS LIMBS self n)
+    ∧ (∀ (fuel : Nat) (BITS LIMBS : Nat) (self : List Nat), Ruint.Gen.nt_PrimInt_reverse_bits fuel BITS LIMBS self = Ruint.Gen.uint_reverse_bits fuel BITS LIMBS self)
+    ∧ (∀ (BITS LIMBS : Nat) (self : List Nat), Ruint.Gen.ni_Integer_is_odd BITS LIMBS self = Ruint.Gen.uint_bit BITS LIMBS self 0) := by
+  refine ⟨?_, ?_, ?_, ?_, ?_, ?_, ?_, ?_, ?_, ?_, ?_, ?_, ?_, ?_, ?_, ?_, ?_, ?_, ?_, ?_⟩ <;> intros <;> rfl
+
+/-- facades of inherent methods that can panic (`none`): the result, panic included, is passed on unchanged -/
+theorem gen_facade_panicking_forwarders :
+    (∀ (fuel : Nat) (BITS LIMBS : Nat) (self : List Nat) (other : List Nat), Ruint.Gen.nt_CheckedDiv_checked_div fuel BITS LIMBS self other = Ruint.Gen.uint_checked_div fuel BITS LIMBS self other)
+    ∧ (∀ (fuel : Nat) (BITS LIMBS : Nat) (self : List Nat) (other : List Nat), Ruint.Gen.nt_CheckedRem_checked_rem fuel BITS LIMBS self other = Ruint.Gen.uint_checked_rem fuel BITS LIMBS self other)
+    ∧ (∀ (fuel : Nat) (BITS LIMBS : Nat) (self : List Nat) (v : List Nat), Ruint.Gen.nt_CheckedEuclid_checked_div_euclid fuel BITS LIMBS self v = Ruint.Gen.uint_checked_div fuel BITS LIMBS self v)
+    ∧ (∀ (fuel : Nat) (BITS LIMBS : Nat) (self : List Nat) (v : List Nat), Ruint.Gen.nt_CheckedEuclid_checked_rem_euclid fuel BITS LIMBS self v = Ruint.Gen.uint_checked_rem fuel BITS LIMBS self v)
+    ∧ (∀ (fuel : Nat) (BITS LIMBS : Nat) (self : List Nat) (v : List Nat), Ruint.Gen.nt_Euclid_div_euclid fuel BITS LIMBS self v = Ruint.Gen.uint_wrapping_div fuel BITS LIMBS self v)
+    ∧ (∀ (fuel : Nat) (BITS LIMBS : Nat) (self : List Nat) (v : List Nat), Ruint.Gen.nt_Euclid_rem_euclid fuel BITS LIMBS self v = Ruint.Gen.uint_wrapping_rem fuel BITS LIMBS self v)
+    ∧ (∀ (fuel : Nat) (BITS LIMBS : Nat) (self : List Nat) (other : List Nat), Ruint.Gen.ni_Integer_div_floor fuel BITS LIMBS self other = Ruint.Gen.uint_wrapping_div fuel BITS LIMBS self other)
+    ∧ (∀ (fuel : Nat) (BITS LIMBS : Nat) (self : List Nat) (other : List Nat), Ruint.Gen.ni_Integer_mod_floor fuel BITS LIMBS self other = Ruint.Gen.uint_wrapping_rem fuel BITS LIMBS self other)
+    ∧ (∀ (fuel : Nat) (BITS LIMBS : Nat) (self : List Nat) (other : List Nat), Ruint.Gen.ni_Integer_div_rem fuel BITS LIMBS self other = Ruint.Gen.uint_div_rem fuel BITS LIMBS self other)
+    ∧ (∀ (fuel : Nat) (BITS LIMBS : Nat) (self : List Nat) (other : List Nat), Ruint.Gen.ni_Integer_div_ceil fuel BITS LIMBS self other = Ruint.Gen.uint_div_ceil fuel BITS LIMBS self other)
+    ∧ (∀ (fuel : Nat) (BITS LIMBS : Nat) (self : List Nat) (other : List Nat), Ruint.Gen.ni_Integer_div_mod_floor fuel BITS LIMBS self other = Ruint.Gen.uint_div_rem fuel BITS LIMBS self other) := by
+  refine ⟨?_, ?_, ?_, ?_, ?_, ?_, ?_, ?_, ?_, ?_, ?_⟩ <;> intros <;> (first | rfl | (simp only [Ruint.Gen.nt_CheckedDiv_checked_div, Ruint.Gen.nt_CheckedRem_checked_rem, Ruint.Gen.nt_CheckedEuclid_checked_div_euclid, Ruint.Gen.nt_CheckedEuclid_checked_rem_euclid, Ruint.Gen.nt_Euclid_div_euclid, Ruint.Gen.nt_Euclid_rem_euclid, Ruint.Gen.ni_Integer_div_floor, Ruint.Gen.ni_Integer_mod_floor, Ruint.Gen.ni_Integer_div_rem, Ruint.Gen.ni_Integer_div_ceil, Ruint.Gen.ni_Integer_div_mod_floor]; split <;> simp_all))
+
+/-- `FromBytes`: `try_from_{le,be}_slice(bytes).unwrap()` — a panic of the decoder or a `None` is a panic -/
+theorem gen_facade_from_bytes :
+    (∀ (fuel : Nat) (BITS LIMBS : Nat) (bytes : List Nat), Ruint.Gen.nt_FromBytes_from_le_bytes fuel BITS LIMBS bytes = (Ruint.Gen.uint_try_from_le_slice fuel BITS LIMBS bytes).join)
+    ∧ (∀ (fuel : Nat) (BITS LIMBS : Nat) (bytes : List Nat), Ruint.Gen.nt_FromBytes_from_be_bytes fuel BITS LIMBS bytes = (Ruint.Gen.uint_try_from_be_slice fuel BITS LIMBS bytes).join) := by
+  refine ⟨?_, ?_⟩ <;> intros <;> (simp only [Ruint.Gen.nt_FromBytes_from_le_bytes, Ruint.Gen.nt_FromBytes_from_be_bytes]; split <;> simp_all <;> split <;> simp_all)
+
+/-- the counting methods of `PrimInt`: the inherent count cast to `u32` -/
+theorem gen_facade_counts :
+    (∀ (fuel : Nat) (BITS LIMBS : Nat) (self : List Nat), Ruint.Gen.nt_PrimInt_count_ones fuel BITS LIMBS self = Ruint.Gen.uint_count_ones fuel BITS LIMBS self % 2 ^ 32)
+    ∧ (∀ (fuel : Nat) (BITS LIMBS : Nat) (self : List Nat), Ruint.Gen.nt_PrimInt_count_zeros fuel BITS LIMBS self = Ruint.Gen.uint_count_zeros fuel BITS LIMBS self % 2 ^ 32)
+    ∧ (∀ (fuel : Nat) (BITS LIMBS : Nat) (self : List Nat), Ruint.Gen.nt_PrimInt_leading_zeros fuel BITS LIMBS self = Ruint.Gen.uint_leading_zeros fuel BITS LIMBS self % 2 ^ 32)
+    ∧ (∀ (fuel : Nat) (BITS LIMBS : Nat) (self : List Nat), Ruint.Gen.nt_PrimInt_leading_ones fuel BITS LIMBS self = Ruint.Gen.uint_leading_ones fuel BITS LIMBS self % 2 ^ 32)
+    ∧ (∀ (BITS LIMBS : Nat) (self : List Nat), Ruint.Gen.nt_PrimInt_trailing_zeros BITS LIMBS self = Ruint.Gen.uint_trailing_zeros BITS LIMBS self % 2 ^ 32)
+    ∧ (∀ (BITS LIMBS : Nat) (self : List Nat), Ruint.Gen.nt_PrimInt_trailing_ones BITS LIMBS self = Ruint.Gen.uint_trailing_ones BITS LIMBS self % 2 ^ 32) := by
+  refine ⟨?_, ?_, ?_, ?_, ?_, ?_⟩ <;> intros <;> rfl
+
+/-- `Zero`, `One`, `Bounded`, `MulAdd`, `MulAddAssign`, `is_even`, `inc`, `dec` -/
+theorem gen_facade_constants_and_steps :
+    (∀ (BITS LIMBS : Nat), Ruint.Gen.nt_Zero_zero BITS LIMBS = (List.replicate LIMBS 0))
+    ∧ (∀ (BITS LIMBS : Nat) (self : List Nat), Ruint.Gen.nt_Zero_is_zero BITS LIMBS self = (self == (List.replicate LIMBS 0)))
+    ∧ (∀ (BITS LIMBS : Nat), Ruint.Gen.nt_One_one BITS LIMBS = (Ruint.toLimbs LIMBS (1 % 2 ^ BITS)))
+    ∧ (∀ (BITS LIMBS : Nat), Ruint.Gen.nt_Bounded_min_value BITS LIMBS = (List.replicate LIMBS 0))
+    ∧ (∀ (BITS LIMBS : Nat), Ruint.Gen.nt_Bounded_max_value BITS LIMBS = (Ruint.Gen.uint_masked BITS LIMBS (List.replicate LIMBS (2 ^ 64 - 1))))
+    ∧ (∀ (fuel : Nat) (BITS LIMBS : Nat) (self : List Nat) (a : List Nat) (b : List Nat), Ruint.Gen.nt_MulAdd_mul_add fuel BITS LIMBS self a b = (Ruint.Gen.uint_wrapping_add fuel BITS LIMBS (Ruint.Gen.uint_wrapping_mul BITS LIMBS self a) b))
+    ∧ (∀ (fuel : Nat) (BITS LIMBS : Nat) (self : List Nat) (a : List Nat) (b : List Nat), Ruint.Gen.nt_MulAddAssign_mul_add_assign fuel BITS LIMBS self a b = Ruint.Gen.uint_wrapping_add fuel BITS LIMBS (Ruint.Gen.uint_wrapping_mul BITS LIMBS self a) b)
+    ∧ (∀ (BITS LIMBS : Nat) (self : List Nat), Ruint.Gen.ni_Integer_is_even BITS LIMBS self = (!(Ruint.Gen.uint_bit BITS LIMBS self 0)))
+    ∧ (∀ (fuel : Nat) (BITS LIMBS : Nat) (self : List Nat), Ruint.Gen.ni_Integer_dec fuel BITS LIMBS self = (Ruint.Gen.uint_wrapping_sub fuel BITS LIMBS self (Ruint.toLimbs LIMBS (1 % 2 ^ BITS))))
+    ∧ (∀ (fuel : Nat) (BITS LIMBS : Nat) (self : List Nat), Ruint.Gen.ni_Integer_inc fuel BITS LIMBS self = (Ruint.Gen.uint_wrapping_add fuel BITS LIMBS self (Ruint.toLimbs LIMBS (1 % 2 ^ BITS)))) := by
+  refine ⟨?_, ?_, ?_, ?_, ?_, ?_, ?_, ?_, ?_, ?_⟩ <;> intros <;> rfl
 
 end Ruint.C20
